@@ -32,7 +32,7 @@ struct world
     std::optional<dj::database> db;
     std::vector<std::optional<dj::track>> th{std::nullopt};
     sqlite3* conn = nullptr;
-    bool rep = false, sweep = false, stale_get = false, dead = false, want_stmts = false, blobs = false, locks = false;
+    bool raw = false, rep = false, sweep = false, stale_get = false, dead = false, want_stmts = false, blobs = false, locks = false;
 };
 std::string g_tmp_root;
 int g_dir_counter = 0;
@@ -206,6 +206,45 @@ json loop_bytes(const std::optional<dj::loop>& c)
                           {"a", c->color.a}, {"r", c->color.r}, {"g", c->color.g}, {"b", c->color.b}}});
 }
 
+// C11 at track level: the derived columns of every stored track row as an independent reader finds them (file name,
+// extension / file type, origin ids), plus SQLite's own checks and verify().  Strings as the same tokens the getters use.
+json raw_tracks(world& w)
+{
+    vh::raw_reader rr{w.conn};
+    json rows = json::array();
+    auto txt = [](sqlite3_stmt* st, int c) {
+        const unsigned char* p = sqlite3_column_text(st, c);
+        return p ? sj::tok(std::string((const char*)p, (size_t)sqlite3_column_bytes(st, c))) : std::string("<NULL>");
+    };
+    if (w.v2)
+    {
+        std::string uuid = rr.text("SELECT uuid FROM Information");
+        rr.query("SELECT id, path, filename, fileType, originDatabaseUuid, originTrackId FROM Track ORDER BY id", [&](sqlite3_stmt* st) {
+            const unsigned char* ou = sqlite3_column_text(st, 4);
+            rows.push_back({{"id", (int64_t)sqlite3_column_int64(st, 0)}, {"path", txt(st, 1)}, {"fn", txt(st, 2)}, {"ext", txt(st, 3)},
+                            {"ouuid", ou && uuid == (const char*)ou}, {"oid", (int64_t)sqlite3_column_int64(st, 5)}});
+        });
+    }
+    else
+    {
+        std::map<int64_t, std::string> ext;
+        rr.query("SELECT id, text FROM MetaData WHERE type = 13", [&](sqlite3_stmt* st) { ext[sqlite3_column_int64(st, 0)] = txt(st, 1); });
+        rr.query("SELECT id, path, filename FROM Track WHERE path IS NOT NULL ORDER BY id", [&](sqlite3_stmt* st) {
+            int64_t id = sqlite3_column_int64(st, 0);
+            rows.push_back({{"id", id}, {"path", txt(st, 1)}, {"fn", txt(st, 2)}, {"ext", ext.count(id) ? ext[id] : std::string("<none>")},
+                            {"ouuid", true}, {"oid", id}});
+        });
+    }
+    json out = {{"rows", rows}};
+    out["integrity"] = rr.text("PRAGMA integrity_check");
+    int nfk = 0;
+    rr.query("PRAGMA foreign_key_check", [&](sqlite3_stmt*) { ++nfk; });
+    out["fk"] = nfk;
+    auto ov = vh::guarded("verify", [&] { w.db->verify(); });
+    out["verify"] = ov.ok ? "ok" : ov.ex;
+    return out;
+}
+
 json observe(world& w)
 {
     json o;
@@ -245,6 +284,8 @@ json observe(world& w)
     o["tracks"] = ids;
     if (w.blobs)
         o["bl"] = blob_columns(w);
+    if (w.raw)
+        o["rawt"] = raw_tracks(w);
     return o;
 }
 
@@ -287,6 +328,7 @@ void start_world(world& w, const json& r)
     w.mode = r.value("mode", "mem");
     w.rep = r.value("rep", false);
     w.sweep = r.value("sweep", false);
+    w.raw = r.value("raw", false);
     w.locks = r.value("locks", false) && r.value("mode", "mem") == "disk";
     w.stale_get = r.value("stale_get", false);
     w.want_stmts = r.value("stmts", false);
